@@ -9,10 +9,11 @@ RULE = ('on random aspect-bounded meshes of the five curves every ordered leaf p
         'estimators build them: DummyElement on float midpoints); all entries come from the real bilform (both switch values); '
         'oracle: |sum of pieces - whole| <= 1e-7*sqrt(D_test*D_trial) with reference diagonals; a split that would push a piece '
         'over aspect 32 is skipped. distinct = distinct (curve, mesh, pair, split kinds, switch)')
+RULE += ' ' + 'A further class are synthetic far pairs with a short time lag (panels of level 2-5 on two sides, h_t = h^2/aspect, lag 0-8 steps): small entries where whole and pieces would fall on different sides of any distance / time-lag cut-off.'
 ASSUMPTIONS = ['no reference integral is needed: the relation is between values of the implementation itself',
                'scope: every piece has h_x^2/h_t <= 32 (time halves double the aspect)']
 REQUIRED = {t: ['split:time', 'split:space', 'split:quarter', 'side:test', 'side:trial', 'side:both', 'pair:diagonal', 'pair:touching',
-                'pair:same-slab', 'pair:other-slab', 'mesh:graded-initial-grid', 'switch:exact', 'switch:quad',
+                'pair:same-slab', 'pair:other-slab', 'pair:far-short-lag', 'mesh:graded-initial-grid', 'switch:exact', 'switch:quad',
                 'curve:UnitSquare', 'curve:PiSquare', 'curve:LShape', 'curve:Circle', 'curve:UnitInterval']
             for t in ('quick', 'thorough')}
 TIMEOUT = {'quick': 900, 'thorough': 5400}
@@ -89,6 +90,33 @@ def run_shard(spec, acc):
             return DummyElement(vs, gam.pw_gamma[geo.piece_of(*x)])
         elems = elems + [dummy((0.0, 1.0), (9.40023426816321, 9.42477796076938)), dummy((0.0, 1.0), (9.42477796076938, 10.995574287564276))]
         pairs = [(len(elems) - 2, len(elems) - 1), (len(elems) - 1, len(elems) - 2)] + pairs
+    # synthetic far pairs with a short time lag (panels of level 2-5 on two sides, h_t = h^2/aspect, the test element 0-8 steps later):
+    # entries that are small but far from negligible, where whole and pieces sit on different sides of any distance / time-lag threshold
+    from src.hierarchical_error_estimator import DummyElement as _DE
+    from src.mesh import Vertex as _V
+    gam_ = ls.mesh.gamma_space
+
+    def far_dummy(t, x):
+        vs = [_V(t[0], x[0], -1), _V(t[0], x[1], -1), _V(t[1], x[1], -1), _V(t[1], x[0], -1)]
+        return _DE(vs, gam_.pw_gamma[geo.piece_of(*x)])
+    n_before = len(elems)
+    for _ in range(max(6, spec['n_pairs'] // 8)):
+        lv = rng.randint(2, 5)
+        pcs = [rng.randrange(len(geo.starts) - 1) for _ in range(2)]
+        ivs = []
+        for pc_ in pcs:
+            s0, s1 = geo.starts[pc_], geo.starts[pc_ + 1]
+            hh = (s1 - s0) / 2**lv
+            kk = rng.randrange(2**lv)
+            ivs.append((s0 + kk * hh, s0 + (kk + 1) * hh))
+        if ivs[0] == ivs[1] or min(ivs[0][1], ivs[1][1]) > max(ivs[0][0], ivs[1][0]):
+            continue
+        hx = ivs[0][1] - ivs[0][0]
+        ht = hx * hx / 2.0**rng.randint(0, 4)
+        lag = rng.randint(0, 8)
+        elems = elems + [far_dummy((lag * ht, (lag + 1) * ht), ivs[0]), far_dummy((0.0, ht), ivs[1])]
+        pairs.append((len(elems) - 2, len(elems) - 1))
+        acc.seen('pair:far-short-lag')
     for i, j in pairs:
         test, trial = elems[i], elems[j]
         if test.time_interval[1] <= trial.time_interval[0]:
@@ -105,7 +133,7 @@ def run_shard(spec, acc):
                         if (k_test == 'time' and slpairs.aspect(test) > 16) or (k_trial == 'time' and slpairs.aspect(trial) > 16):
                             acc.count('skipped_aspect')
                             continue
-                        if rng.random() < 0.5 and i != j and not (spec['name'] == 'graded-PiSquare-0' and i >= n):
+                        if rng.random() < 0.5 and i != j and not (spec['name'] == 'graded-PiSquare-0' and n <= i < n_before) and i < n_before:
                             continue
                         total = 0.0
                         vals = []
